@@ -273,7 +273,7 @@ def work_point_read(E, ctx, states, shard):
             r = target_l(t, s, lreq, mreq)
             variants = [("ads", None), (None, None), ("des", (Num.atom("lo"), Num.atom("hi"))), ("ads", (None, Num.const(0)))]
             if not E.thorough:
-                variants = [variants[ci % 2], variants[2]]
+                variants = [variants[ci % 2], variants[2]] + ([variants[3]] if ci % 7 == 0 else [])      # (a limit that is exactly 0 is a limit)
             for branch, limits in variants:
                 kw = {"branch": branch, "loading_basis": lreq[0], "loading_unit": lreq[1], "material_basis": mreq[0],
                       "material_unit": mreq[1], "limits": limits}
